@@ -182,6 +182,15 @@ Fixpoint monitor2_ops (which : Z) (u : universe) (all : list (op * op_obs)) (ear
                | 8 => c08_monitor u all o ob
                | 9 => c09_monitor o ob
                | 17 => c17_monitor earlier o ob
+               | 4 => match o with
+                      | OpCall f _ _ => if c04_ok f (co_of_obs ob) then 0 else 59
+                      | OpCallRedef ref =>
+                          match nth_error all ref with
+                          | Some (OpRedefine f _ _, _) => if c04_ok f (co_of_obs ob) then 0 else 59
+                          | _ => 0
+                          end
+                      | _ => 0
+                      end
                | _ => 0
                end in
       if c =? 0 then monitor2_ops which u all (earlier ++ oo_events ob) rest (i + 1) else 100 * (i + 1) + c
